@@ -70,15 +70,22 @@ Def(sim, dim, dofn) ==
       [] sim = "PhaseField"   -> MergeAll(<<Comp("u", "u", dim), [nm \in {"displacement"} |-> Tok("u", "all")], [nm \in {"displacement_matrix"} |-> Tok("u", "matrix")],
                                             [nm \in DOMAIN FormOnly({"psiP", "Wdef_e"}, dim) \ {"Green-Lagrange", "Piola-Kirchhoff"} |-> FormOnly({"psiP", "Wdef_e"}, dim)[nm]],
                                             [nm \in {"displacement_norm"} |-> Tok("u", "norm")], [nm \in {"damage"} |-> Tok("d", "all")]>>)
+      [] sim = "InElastic"    -> MergeAll(<<Comp("u", "u", dim), [nm \in {"displacement"} |-> Tok("u", "all")], [nm \in {"displacement_norm"} |-> Tok("u", "norm")],
+                                            [nm \in {"displacement_matrix"} |-> Tok("u", "matrix")],
+                                            Tens("E", "E", dim), [nm \in {"Evm"} |-> Tok("E", "vm")], [nm \in {"Strain"} |-> Tok("E", "all")],     \* the strain is kinematic: its value is defined
+                                            [nm \in DOMAIN Tens("S", "S", dim) \cup {"Svm"} |-> Tok("any_e", "0")], [nm \in {"Stress"} |-> Tok("any_e", "all")],
+                                            [nm \in {"p", "d", "D", "alpha"} |-> Tok("any_e", "0")]>>)      \* scalar internal variables
       [] sim = "Thermal"      -> [nm \in {"thermal", "thermalDot"} |-> IF nm = "thermal" THEN Tok("u", "all") ELSE Tok("v", "all")]
       [] sim = "WeakForms"    -> MergeAll(<<Comp("u", "u", dofn), Comp("v", "v", dofn), Comp("a", "a", dofn),
                                             [nm \in {"u"} |-> Tok("u", "all")], [nm \in {"v"} |-> Tok("v", "all")], [nm \in {"a"} |-> Tok("a", "all")]>>)
       [] sim = "Beam"         -> MergeAll(<<SeqTok(BeamDofs(dofn), "u"), SeqTok(BeamForces(dofn), "Ku"), [nm \in {"displacement"} |-> Tok("u", "all")],
                                             SeqTok(BeamStrains(dofn), "Eb"), SeqTok(BeamIntForces(dofn), "Fb"), SeqTok(BeamStress(dofn), "Sb"),
-                                            [nm \in {"Strain"} |-> Tok("Eb", "all")], [nm \in {"Stress"} |-> Tok("Sb", "all")]>>)
+                                            [nm \in {"Strain"} |-> Tok("Eb", "all")], [nm \in {"Stress"} |-> Tok("Sb", "all")],
+                                            [nm \in {"displacement_norm"} |-> Tok("ut", "norm")], [nm \in {"displacement_matrix"} |-> Tok("ut", "matrix")],   \* translations only
+                                            [nm \in {"Ty", "Tz"} |-> Tok("any_e", "0")]>>)
 
 (* where a quantity is stored, and how many components one entity carries *)
-Stored(t) == IF t[1] \in {"u", "v", "a", "d", "Ku"} THEN "node" ELSE "elem"
+Stored(t) == IF t[1] \in {"u", "ut", "v", "a", "d", "Ku"} THEN "node" ELSE "elem"
 NVoigt(dim) == IF dim = 1 THEN 1 ELSE IF dim = 2 THEN 3 ELSE 6
 NComp(t, sim, dim, dofn) ==
     IF t[2] = "matrix" THEN 3 ELSE
